@@ -1,6 +1,7 @@
 package main
 
 import (
+	pongo2 "github.com/flosch/pongo2/v6"
 	"fmt"
 	"math"
 	"strings"
@@ -589,6 +590,91 @@ func suiteC07(cfg Config, res *Result) {
 		lbl := "ops=" + fmt.Sprint(min(countOps(t), 4))
 		cases = append(cases, ProgCase{Src: full, Ctx: &c, Label: lbl})
 		wants = append(wants, want)
+	}
+	// an expression is evaluated anew at every execution: one compiled template, three contexts in turn
+	{
+		var rebind func(t *xt, vals map[string]xv) *xt
+		rebind = func(t *xt, vals map[string]xv) *xt {
+			if t == nil {
+				return nil
+			}
+			c := *t
+			if t.op == "" {
+				if v, ok := vals[t.name]; ok && t.name != "" {
+					c.leaf = v
+				}
+				return &c
+			}
+			c.l, c.r = rebind(t.l, vals), rebind(t.r, vals)
+			return &c
+		}
+		hasVar := func(t *xt) bool { return false }
+		var hv func(t *xt) bool
+		hv = func(t *xt) bool {
+			if t == nil {
+				return false
+			}
+			if t.op == "" {
+				return t.name != ""
+			}
+			return hv(t.l) || hv(t.r)
+		}
+		hasVar = hv
+		envs := []map[string]xv{
+			{"x": {k: "int", i: 5}, "y": {k: "float", f: 1.5}, "s": {k: "str", s: "ab"}},
+			{"x": {k: "int", i: 0}, "y": {k: "float", f: -2.0}, "s": {k: "str", s: ""}},
+			{"x": {k: "int", i: 2}, "y": {k: "float", f: 0.0}, "s": {k: "str", s: "a"}},
+		}
+		ctxOf := func(e map[string]xv) pongo2.Context {
+			return pongo2.Context{"x": int(e["x"].i), "y": e["y"].f, "s": e["s"].s}
+		}
+		step := 7
+		if cfg.Thorough() {
+			step = 2
+		}
+		cnt := 0
+		for ti, t := range trees {
+			if ti%step != 0 || !hasVar(t) {
+				continue
+			}
+			if _, err := denote(t); err == errType {
+				continue
+			}
+			src := (&printer{r: rng}).print(t, 0)
+			set := pongo2.NewSet("c07h", &memLoader{files: map[string]string{}})
+			tpl, err := set.FromString("{{ " + src + " }}|{% if " + src + " %}T{% else %}F{% endif %}")
+			if err != nil {
+				continue
+			}
+			cnt++
+			for _, ei := range []int{0, 1, 2, 0, 1} {
+				t2 := rebind(t, envs[ei])
+				v, derr := denote(t2)
+				if derr == errType {
+					continue // this binding takes the tree outside the fragment
+				}
+				got := execOnce(tpl, ctxOf(envs[ei]))
+				want := ""
+				if derr == errZero {
+					want = "err"
+				} else {
+					tf := "F"
+					if v.truthy() {
+						tf = "T"
+					}
+					want = "ok " + hxb(v.String()+"|"+tf)
+				}
+				g := got.String()
+				if strings.HasPrefix(g, "err ") {
+					g = "err"
+				}
+				if g != want {
+					res.add(Finding{Kind: "oracle", Proj: "semantics", Sig: "c07-reevaluation", Case: fmt.Sprintf("src=%q executed with x,y,s = %v after other bindings", src, envs[ei]), Impl: got.String(), Model: "independent evaluator: " + want})
+					break
+				}
+			}
+		}
+		res.hist(fmt.Sprintf("re-evaluated=%d", cnt))
 	}
 	res.hist(fmt.Sprintf("outside-fragment=%d", outside))
 	idx := map[string]int{}
